@@ -23,6 +23,22 @@ Theorem C14_mismatch_kinds : forall h p,
   end.
 Proof. exact mismatch_kinds. Qed.
 
+(* and the other way round, where each mismatch surfaces: a protocol outside the allowed list and the Reattach option
+   conflict at start; an unanswered multiplexing request at start with the dedicated error; whatever the rest of the
+   two configurations *)
+Theorem C14_mismatch_surfaces_at_start : forall h p,
+  (h_launch h <> LReattach -> allowed h (p_wire p) = false -> interop h p = StartErr) /\
+  (h_launch h <> LReattach -> allowed h (p_wire p) = true -> h_mux h = true -> p_wire p = WGrpc -> p_mux p <> MuxNew ->
+   interop h p = StartErrMuxUnsupported) /\
+  (h_launch h = LReattach -> h_mux h = true -> interop h p = StartErr).
+Proof.
+  intros h p. unfold interop. repeat split.
+  - intros Hl Ha. destruct (h_launch h); try congruence; rewrite Ha; reflexivity.
+  - intros Hl Ha Hm Hw Hx. destruct (h_launch h); try congruence; rewrite Ha, Hm, Hw; cbn;
+      destruct (p_mux p); try congruence; reflexivity.
+  - intros Hl Hm. rewrite Hl, Hm. reflexivity.
+Qed.
+
 Theorem C14_protocol_allowed : forall h p, h_launch h <> LReattach -> interop h p = Works -> allowed h (p_wire p) = true.
 Proof. exact works_protocol_allowed. Qed.
 
